@@ -27,6 +27,7 @@ type config struct {
 	RawFlows map[string]string `json:"raw_flows,omitempty"` // extra flow files given as text (malformed YAML etc.)
 	Quotas   map[string]string `json:"quotas,omitempty"`    // file name -> YAML text
 	Tags     []string          `json:"tags,omitempty"`
+	LogLevel string            `json:"log_level,omitempty"` // the gateway's log level while the configuration is loaded and run ("" = off; output discarded)
 }
 
 type outcome struct {
@@ -120,6 +121,11 @@ func (c config) urls() []string {
 // run loads the configuration through the validator's code path and, if it is
 // accepted, drives a battery of transactions through it under a step bound.
 func run(c config) (o outcome) {
+	engine.WithLogLevel(c.LogLevel, func() { o = runAtLevel(c) })
+	return o
+}
+
+func runAtLevel(c config) (o outcome) {
 	journal(c)
 	defer clearJournal()
 	dir, err := engine.NewDir(scratch)
@@ -821,7 +827,7 @@ func TestRandomConfigs(t *testing.T) {
 	rec = engine.Capture(0)
 	defer rec.Stop()
 	rapid.Check(t, func(t *rapid.T) {
-		c := config{}
+		c := config{LogLevel: rapid.SampledFrom([]string{"", "", "", "error", "debug", "trace"}).Draw(t, "log-level")}
 		haveQuota := rapid.IntRange(0, 2).Draw(t, "quota") != 0
 		if haveQuota {
 			q, tags := genQuotaFile(t)
